@@ -8,6 +8,7 @@ import Chihaya.Driver.DUdp
 import Chihaya.Driver.DHttpWrite
 import Chihaya.Driver.DStore
 import Chihaya.Driver.DLifecycle
+import Chihaya.Driver.DJwt
 import Chihaya.Driver.DTracker
 open Proto
 
@@ -15,7 +16,7 @@ structure DState where
   store : DStore.DState := {}
 
 def statelessHandlers : List (Line → Option (Except String String)) :=
-  [DBencode.handle, DVarInterval.handle', DConfig.handle, DApproval.handle, DHttpParse.handle, DUdp.handle, DHttpWrite.handle, DLifecycle.handle]
+  [DBencode.handle, DVarInterval.handle', DConfig.handle, DApproval.handle, DHttpParse.handle, DUdp.handle, DHttpWrite.handle, DLifecycle.handle, DJwt.handle]
 
 def dispatch (st : DState) (l : Line) : DState × String :=
   match (DStore.handle st.store l).orElse (fun _ => DTracker.handle st.store l) with
